@@ -390,8 +390,8 @@ SHAPES = [
      r"ev.events = events_to_epoll\(events\);" + WS + r"ev.data.ptr = context;" + WS + r"return epoll_ctl\(runtime->epoll_fd, EPOLL_CTL_ADD, fd, &ev\);", 1),
     # snoop relation, re-entrancy (Multi.lean: dropSnooper, MOp.snoop, reactStep / writeW)
     ("receive_snoop.body", "src/comm.c", None,
-     r"static void receive_snoop \(char \*buf, object_t \* snooper\) \{(?:\s|/\*[^*]*\*/)*copy_and_push_string \(buf\);" + WS
-     + r"apply \(APPLY_RECEIVE_SNOOP, snooper, 1, ORIGIN_DRIVER\);" + WS + r"\}", 1),
+     r"static void receive_snoop \(char \*buf, object_t \* snooper\) \{(?:\s|/\*(?:[^*]|\*(?!/))*\*/)*copy_and_push_string \(buf\);"
+     + r"(?:\s|/\*(?:[^*]|\*(?!/))*\*/)*safe_apply \(APPLY_RECEIVE_SNOOP, snooper, 1, ORIGIN_DRIVER\);" + WS + r"\}", 1),
     ("remove_interactive.snoop-links", "src/comm.c", None,
      r"if \(ip->snoop_by\)" + WS + r"\{" + WS + r"ip->snoop_by->snoop_on = 0;" + WS + r"ip->snoop_by = 0;" + WS + r"\}" + WS
      + r"if \(ip->snoop_on\)" + WS + r"\{" + WS + r"ip->snoop_on->snoop_by = 0;" + WS + r"ip->snoop_on = 0;" + WS + r"\}", 1),
